@@ -5,7 +5,7 @@
 //!   drive sort <seed> <cases> <out.ndjson>
 use serde_json::{json, Value};
 use std::io::Write;
-use tdverif::cells::{CellT, Elem, Tok, Zst, K32};
+use tdverif::cells::{CellT, Elem, Tok, Zst, K32, W1K};
 use tdverif::hist::{event, index_args, Machine};
 use tdverif::util::{guarded, silence_panics, LenMode};
 use toodee::{SortOps, TooDee, TooDeeOps, TooDeeOpsMut};
@@ -346,6 +346,7 @@ fn main() {
             match args.get(7).map(|s| s.as_str()).unwrap_or("elem") {
                 "zst" => hist::<Zst>(seed, histories, steps, maxdim, &mut out, faults),
                 "tok" => hist::<Tok>(seed, histories, steps, maxdim, &mut out, faults),
+                "w1k" => hist::<W1K>(seed, histories, steps, maxdim, &mut out, faults),
                 "u32" => hist::<K32>(seed, histories, steps, maxdim, &mut out, faults),
                 _ => hist::<Elem>(seed, histories, steps, maxdim, &mut out, faults),
             }
